@@ -237,6 +237,10 @@ type c14Chart struct {
 	Schema   map[string]interface{} `json:"schema,omitempty"`
 	Defaults map[string]interface{} `json:"defaults"`
 	Deps     []*c14Chart            `json:"deps,omitempty"`
+	// TwinOf: this entry is a second declaration (under the alias Name) of the sibling of that name: one chart in
+	// charts/, two entries in Chart.yaml. Unlisted: the chart lies in its parent's charts/ without an entry in Chart.yaml.
+	TwinOf   string `json:"twinOf,omitempty"`
+	Unlisted bool   `json:"unlisted,omitempty"`
 }
 
 type c14Case struct {
@@ -261,19 +265,26 @@ func (c *c14Chart) build(version string) *chart.Chart {
 	ch := &chart.Chart{
 		Metadata:  &chart.Metadata{APIVersion: "v2", Name: c.own(), Version: version},
 		Values:    deepCopyVal(c.Defaults).(map[string]interface{}),
-		Templates: []*chart.File{{Name: "templates/cm.yaml", Data: []byte("apiVersion: v1\nkind: ConfigMap\nmetadata:\n  name: cm-" + c.Name + "\ndata:\n  v: {{ toJson .Values | quote }}\n")}},
+		// (the object's name comes from the template's path: a chart declared twice is rendered twice from one file)
+		Templates: []*chart.File{{Name: "templates/cm.yaml", Data: []byte("apiVersion: v1\nkind: ConfigMap\nmetadata:\n  name: cm-{{ .Template.BasePath | sha256sum | trunc 12 }}\ndata:\n  chart: " + c.Name + "\n  v: {{ toJson .Values | quote }}\n")}},
 	}
 	if c.Schema != nil {
 		b, _ := json.Marshal(c.Schema)
 		ch.Schema = b
 	}
 	for _, d := range c.Deps {
+		if d.Unlisted {
+			ch.AddDependency(d.build(version))
+			continue
+		}
 		dep := &chart.Dependency{Name: d.own(), Version: version, Condition: d.Cond}
 		if d.Real != "" {
 			dep.Alias = d.Name
 		}
 		ch.Metadata.Dependencies = append(ch.Metadata.Dependencies, dep)
-		ch.AddDependency(d.build(version))
+		if d.TwinOf == "" {
+			ch.AddDependency(d.build(version))
+		}
 	}
 	return ch
 }
@@ -324,15 +335,33 @@ func c14GenCase(t *rapid.T) c14Case {
 		}
 	}
 	aliasWalk(root)
+	// one case in four with a mid chart declares it a second time under the alias mid2 (one chart in charts/, rendered
+	// twice); a leaf below it then lies in charts/ without a declaration (declared nested charts below a chart that is
+	// declared twice are where the pinned tree has a known defect, C11)
+	if len(root.Deps) > 0 && root.Deps[0].Name == "mid" && rapid.IntRange(0, 3).Draw(t, "midDeclaredTwice") == 0 {
+		mid := root.Deps[0]
+		for _, l := range mid.Deps {
+			l.Unlisted, l.Cond, l.Real = true, "", ""
+		}
+		twin := deepCopyC14(mid)
+		twin.Name, twin.TwinOf, twin.Real, twin.Cond = "mid2", "mid", mid.own(), ""
+		if rapid.Bool().Draw(t, "mid2Cond") {
+			twin.Cond = "mid2.enabled"
+		}
+		root.Deps = append(root.Deps, twin)
+		if rapid.Bool().Draw(t, "rootSectionForMid2") {
+			root.Defaults["mid2"] = c14GenValues(t, "rootMid2Sec", 5)
+		}
+	}
 	c := c14Case{Root: root, Backend: rapid.SampledFrom([]string{"memory", "secret"}).Draw(t, "backend")}
 	c.CreateNS = rapid.IntRange(0, 2).Draw(t, "createNamespace") == 0
 	// user values through files and --set
 	for i, n := 0, rapid.IntRange(0, 2).Draw(t, "nFiles"); i < n; i++ {
 		tree := c14GenValues(t, fmt.Sprintf("file%d", i), 4)
-		for _, sub := range []string{"mid", "side"} {
+		for _, sub := range []string{"mid", "side", "mid2"} {
 			if rapid.IntRange(0, 2).Draw(t, fmt.Sprintf("file%d%s", i, sub)) == 0 {
 				sec := c14GenValues(t, fmt.Sprintf("file%d%ssec", i, sub), 4)
-				if sub == "mid" && rapid.Bool().Draw(t, fmt.Sprintf("file%dleaf", i)) {
+				if sub != "side" && rapid.Bool().Draw(t, fmt.Sprintf("file%dleaf", i)) {
 					sec["leaf"] = c14GenValues(t, fmt.Sprintf("file%dleafsec", i), 4)
 				}
 				if en := rapid.IntRange(0, 3).Draw(t, fmt.Sprintf("file%d%senabled", i, sub)); en > 1 {
@@ -348,6 +377,7 @@ func c14GenCase(t *rapid.T) c14Case {
 		c.Sets = append(c.Sets, rapid.SampledFrom([]string{
 			"replicas=3", "replicas=99", "replicas=three", "name=alpha", "name=zz", "debug=true", "debug=yes", "cfg.mode=fast", "cfg.extra=x", "cfg.level=10",
 			"mid.replicas=0", "mid.replicas=3", "mid.name=beta", "mid.leaf.replicas=0", "mid.leaf.replicas=3", "mid.leaf.name=zz", "side.replicas=-1", "side.debug=true",
+			"mid2.replicas=0", "mid2.replicas=3", "mid2.name=zz", "mid2.leaf.replicas=0", "mid2.leaf.name=zz", "mid2.leaf.replicas=3", "mid2.cfg.mode=1", "mid2.enabled=false", "mid2.cfg.level=4",
 			"mid.enabled=false", "mid.leaf.enabled=false", "mid.enabled=true", "ports={80,443}", "ports={0}", "mid.cfg.mode=1",
 			// nulls: over a default (deletes it), and where nothing is to delete (stays a null in the final values)
 			"global.region=eu", "global.region=mars", "global.region=7", "cfg.level=5", "cfg.level=2", "mid.cfg.level=4", "side.cfg.level=1",
@@ -355,6 +385,14 @@ func c14GenCase(t *rapid.T) c14Case {
 			"mid=off", "side=1", "mid.leaf=none",
 			"name=null", "replicas=null", "debug=null", "cfg=null", "cfg.mode=null", "extra=null", "mid.name=null", "mid.replicas=null", "mid.leaf.name=null", "side.cfg.level=null",
 		}).Draw(t, "set"))
+	}
+	// one case in eight puts a scalar where a subchart's section belongs; a case with a chart declared twice usually
+	// addresses the second declaration
+	if rapid.IntRange(0, 7).Draw(t, "scalarOnSubchartKey") == 0 {
+		c.Sets = append(c.Sets, rapid.SampledFrom([]string{"mid=off", "side=1", "mid.leaf=none", "mid2=off", "mid2.leaf=none"}).Draw(t, "scalarSet"))
+	}
+	if n := len(root.Deps); n > 0 && root.Deps[n-1].TwinOf != "" && rapid.IntRange(0, 2).Draw(t, "addressTheSecondDeclaration") > 0 {
+		c.Sets = append(c.Sets, rapid.SampledFrom([]string{"mid2.replicas=0", "mid2.replicas=99", "mid2.name=zz", "mid2.leaf.replicas=0", "mid2.leaf.name=zz", "mid2.leaf.replicas=99", "mid2.cfg.mode=1", "mid2.cfg.level=10", "mid2.leaf.cfg.mode=1", "mid2.debug=yes", "mid2.leaf.debug=yes"}).Draw(t, "mid2Set"))
 	}
 	c.Skip = rapid.IntRange(0, 7).Draw(t, "skipSchema") == 0
 	c.Seq = rapid.SampledFrom([]string{"install", "install", "upgrade", "upgrade", "skip-install-then-upgrade", "same-version-new-schema-upgrade"}).Draw(t, "sequence")
@@ -679,7 +717,9 @@ func c14RenderedViolators(root *c14Chart, manifest string) (bad []string) {
 	charts := map[string]*c14Chart{}
 	var walk func(c *c14Chart)
 	walk = func(c *c14Chart) {
-		charts[c.Name] = c
+		if c.TwinOf == "" {
+			charts[c.Name] = c
+		}
 		for _, d := range c.Deps {
 			walk(d)
 		}
@@ -695,7 +735,7 @@ func c14RenderedViolators(root *c14Chart, manifest string) (bad []string) {
 		if yaml.Unmarshal([]byte(doc), &obj) != nil || !strings.HasPrefix(obj.Metadata.Name, "cm-") {
 			continue
 		}
-		c := charts[strings.TrimPrefix(obj.Metadata.Name, "cm-")]
+		c := charts[obj.Data["chart"]]
 		if c == nil || c.Schema == nil {
 			continue
 		}
@@ -739,6 +779,16 @@ func c14JudgeRenderedOnly(tb vt.TB, c c14Case, user map[string]interface{}) bool
 		}
 	}
 	return rendered
+}
+
+func deepCopyC14(c *c14Chart) *c14Chart {
+	n := *c
+	n.Defaults = deepCopyVal(c.Defaults).(map[string]interface{})
+	n.Deps = nil
+	for _, d := range c.Deps {
+		n.Deps = append(n.Deps, deepCopyC14(d))
+	}
+	return &n
 }
 
 func c14StripSchemas(c *c14Chart) *c14Chart {
@@ -813,6 +863,9 @@ func c14WriteChartDir(c *c14Chart, dir, version string) error {
 		}
 	}
 	for _, d := range c.Deps {
+		if d.TwinOf != "" {
+			continue
+		}
 		if err := c14WriteChartDir(d, filepath.Join(dir, "charts", d.own()), version); err != nil {
 			return err
 		}
@@ -827,8 +880,8 @@ func c14Prop(t *rapid.T) {
 }
 
 func TestC14(t *testing.T) {
-	evid.Extra("rule", "C14: chart trees app -> mid -> leaf, app -> side with a schema (from a generated family: type, required, enum, minimum/maximum, minLength, nested object with required / additionalProperties:false, array items) on any subset of the charts, conditions on subcharts, dependencies declared under an alias, installs with and without --create-namespace, defaults at every level, parent sections, and user values arriving through 0-2 generated -f files and 0-2 --set arguments (merged by Options.MergeValues); sequences: install | upgrade over a schema-less baseline | install with skip-schema-validation then plain upgrade with the same chart and values | upgrade to the same chart version with schemas added. Oracle: a ~100-line reference evaluator for exactly this schema family applied to the reference-coalesced final values of every enabled chart: some chart violates (and skip is off) <=> template, server dry-run install, real install / upgrade fail with the schema error naming every violating chart, with no mutating request and no storage write; nobody violates => no schema error; with skip-schema-validation the gate is off; lint agrees for the root chart. Non-trivial = a violation that arrives from a non-default source or is confined to a subchart; distinct by the whole case.")
-	evid.Extra("assumptions", []string{"the reference evaluator covers exactly the generated schema family (no $ref, no combinators)", "lint is judged for the root chart's own schema only (lint without --with-subcharts looks at one chart)", "cases in which user values turn a subchart section into a non-table are counted, not judged"})
+	evid.Extra("rule", "C14: chart trees app -> mid -> leaf, app -> side with a schema (from a generated family: type, required, enum, minimum/maximum, minLength, nested object with required / additionalProperties:false, array items) on any subset of the charts, conditions on subcharts, dependencies declared under an alias, one case in four with a mid chart declaring it twice (alias mid2: one chart object rendered at two places, its leaf lying undeclared in charts/), installs with and without --create-namespace, defaults at every level, parent sections, and user values arriving through 0-2 generated -f files and 0-2 --set arguments (merged by Options.MergeValues); sequences: install | upgrade over a schema-less baseline | install with skip-schema-validation then plain upgrade with the same chart and values | upgrade to the same chart version with schemas added. Oracle: a ~100-line reference evaluator for exactly this schema family applied to the reference-coalesced final values of every enabled chart: some chart violates (and skip is off) <=> template, server dry-run install, real install / upgrade fail with the schema error naming every violating chart, with no mutating request and no storage write; nobody violates => no schema error; with skip-schema-validation the gate is off; lint agrees for the root chart. Independently of that reference: every chart's template prints the values it was rendered with, and whenever an operation succeeds without the skip option the printed values of every chart are validated against its schema (this also judges user values that put a scalar where an enabled subchart's section belongs). Non-trivial = a violation that arrives from a non-default source or is confined to a subchart; distinct by the whole case.")
+	evid.Extra("assumptions", []string{"the reference evaluator covers exactly the generated schema family (no $ref, no combinators)", "lint is judged for the root chart's own schema only (lint without --with-subcharts looks at one chart)", "cases in which user values turn a subchart section into a non-table are judged by the rendered-values clause only (Helm rejects them today; what such a subchart's final values would be is not defined)"})
 	rapid.Check(t, c14Prop)
 }
 
